@@ -46,6 +46,8 @@ def jobs(tier, seed):
             out.append(('trxcon.ctrl.%s.rsp+%d' % (verb, L), 'c_ctrl_any', dict(cmd=cmd, L=L, prefix='RSP ' + verb)))
         for L in range(0, 5):
             out.append(('trxcon.ctrl.%s.any%d' % (verb, L), 'c_ctrl_any', dict(cmd=cmd, L=L, prefix='')))
+    for total in (1022, 1023, 1024, 1025, 1100):
+        out.append(('trxcon.ctrl.long.%d' % total, 'c_ctrl_any', dict(cmd='CMD POWEROFF', L=2, prefix='RSP POWEROFF 0 ' + 'A' * (total - 17))))
     out.append(('trxcon.validation', 'c_validate', dict(seed=seed)))
     for L in range(0, (21 if tier == 'thorough' else 15)):
         for what in ('parse_all()', 'parse_msg(0)', 'parse_msg(1)', 'parse_all(1,1)'):
